@@ -5,6 +5,8 @@
    state or other bookkeeping node is left in the tree.
    For all tables, regular expressions, rune classes, label normalisations and reference maps
    - except that the space table must class the bytes 32 and 10 as spaces (see below).
+   Theorems: inline_children_ok_sp, inline_children_public_kinds_sp (any tables with that property),
+   InlineChildren_ok, InlineChildren_public_kinds (the regenerated tables, model/ParseI.v).
 
    STATEMENT CHANGE.  The theorem inline_children_ok as first stated (for an arbitrary space_table)
    is FALSE.  Counterexample (checked with vm_compute): space_table = [] (no byte is a space),
@@ -20,13 +22,33 @@
    what is needed; the theorem is proved with them as inline_children_ok_sp, and for the regenerated
    tables (where they hold by computation) as InlineChildren_ok at the end of the file.
 
+   The second theorem of the skeleton, inline_children_public_kinds (no delimiter, label state or block
+   node is left among the inline children), is proved under the same two hypotheses as
+   inline_children_public_kinds_sp, and for the regenerated tables as InlineChildren_public_kinds: the
+   proof runs on top of the invariant of the first theorem (ctx_ok), which needs them.  It has not been
+   determined whether the second statement holds for an arbitrary space table (no counterexample is
+   known; the counterexample above does not apply: its tree has public kinds only).
+   Proof idea for the kinds: the delimiter list of the parse context is at every step the list of the
+   delimiter children of the block node, in the same order (so ClearDelimiters, which walks the previous
+   siblings of the last delimiter, reaches all of them); delimiter and label state children of the block
+   node are in increasing node number order (so the delimiters at or before a link bottom are before the
+   label the bottom was pushed with, and none follows the label when its link is made); label state
+   nodes with a parent are in the label state list, which CloseBlock empties; node 0 is the only block
+   node and has no parent.
+
    Helper files: ParseInlineRangeHeap.v (heap, tree surgery, delimiter list), ParseInlineRangeReader.v
-   (block reader), ParseInlineRangeParsers.v (the inline parsers, scan_line, parse_block_loop). *)
+   (block reader), ParseInlineRangeParsers.v (the inline parsers, scan_line, parse_block_loop);
+   for the kinds: ParseInlineRangeKList.v (children lists after the tree surgery, key nodes),
+   ParseInlineRangeKStep.v (generic steps, text merging, RemoveDelimiter), ParseInlineRangeKDelim.v
+   (ClearDelimiters, ProcessDelimiters), ParseInlineRangeKLabel.v (label state list),
+   ParseInlineRangeKInv.v (the invariants), ParseInlineRangeKParsers.v (parsers, scan_line, loop). *)
 Require Import GM.model.Base GM.model.Util GM.model.Reader GM.model.ReaderSpec GM.model.Blocks GM.model.ListItem
                GM.model.LeafBlocks GM.model.CodeSpan GM.model.LinkDest GM.model.Regex GM.model.Delim GM.model.HtmlWriter
                GM.model.Html GM.model.HtmlSpec GM.model.BlockParse GM.model.InlineParse.
 Require Import GM.proofs.BReaderProofs GM.proofs.ParseInv.
 Require Import GM.proofs.ParseInlineRangeHeap GM.proofs.ParseInlineRangeReader GM.proofs.ParseInlineRangeParsers.
+Require Import GM.proofs.ParseInlineRangeKList GM.proofs.ParseInlineRangeKStep GM.proofs.ParseInlineRangeKDelim
+               GM.proofs.ParseInlineRangeKLabel GM.proofs.ParseInlineRangeKInv GM.proofs.ParseInlineRangeKParsers.
 From Coq Require Import ZArith Lia List Bool.
 Import ListNotations.
 Open Scope Z_scope.
@@ -222,11 +244,171 @@ Proof.
   destruct (seg_value src s) as [v| |]; cbn [bind] in Et; try discriminate. inversion Et; subst; exact Hkids.
 Qed.
 
+(* ---------- public inline kinds ---------- *)
+Lemma all_kinds_node p k l a kids : all_kinds p (Node k l a kids) = p k && forallb (all_kinds p) kids.
+Proof.
+  cbn [all_kinds]. f_equal.
+Qed.
+
+(* a tree whose nodes with a parent are neither block, delimiter nor label state nodes *)
+Lemma itree_kinds src h : (forall x p, pr h x = Some p -> nkey h x) -> tree_ok h ->
+  forall fuel i t, itree fuel src h i = Ok t -> forallb (all_kinds inline_kind) (t_children t) = true /\
+                   (nkey h i -> all_kinds inline_kind t = true).
+Proof.
+  intros Hnk Ht. induction fuel as [|f IH]; intros i t H; cbn [itree] in H; [discriminate|].
+  destruct (iget h i) as [n| |] eqn:Eg; cbn [bind] in H; try discriminate.
+  apply iget_kd in Eg. destruct Eg as (Ek & _ & Ec).
+  destruct (map_res (itree f src h) (ich n)) as [kids| |] eqn:Em; cbn [bind] in H; try discriminate.
+  assert (Hkids : forallb (all_kinds inline_kind) kids = true).
+  { apply forallb_forall. intros y Hy. destruct (map_res_in _ _ _ Em y Hy) as (x & Hx & Hxy).
+    apply (proj2 (IH x y Hxy)). apply (Hnk x i). apply (t_child h Ht). rewrite Ec. exact Hx. }
+  assert (Hfin : forall k, Ok (Node k [] None kids) = Ok t -> (nkey h i -> inline_kind k = true) ->
+            forallb (all_kinds inline_kind) (t_children t) = true /\ (nkey h i -> all_kinds inline_kind t = true)).
+  { intros k E Hk. inversion E; subst t. cbn [t_children]. split; [exact Hkids|]. intros Hn. rewrite all_kinds_node, (Hk Hn), Hkids. reflexivity. }
+  unfold nkey, kcls in Hfin |- *. rewrite Ek in Hfin |- *.
+  destruct (ik n) as [|s0 soft hard raw| |lv|d ti|d ti|e sg|segs| |]; cbn [bind cls] in H, Hfin |- *;
+    try (apply (Hfin _ H); intros; try reflexivity; lia).
+  destruct (seg_value src sg) as [v| |]; cbn [bind] in H; try discriminate. apply (Hfin _ H). reflexivity.
+Qed.
+
+(* linkParser.CloseBlock turns every remaining label state into text *)
+Lemma close_labels_k src : forall fuel c cur c' L LL, close_labels fuel c cur = Ok c' -> ctx_ok src [] c L ->
+  ginv (i_h c) -> lchain c LL -> latt (i_h c) LL [] -> cur = nxt_of LL None ->
+  ginv (i_h c') /\ latt (i_h c') [] [].
+Proof.
+  induction fuel as [|f IH]; intros c cur c' L LL H Hc Hg Hlc Hla Hcur; cbn [close_labels] in H; [discriminate|].
+  destruct LL as [|x LL']; cbn [nxt_of] in Hcur; subst cur.
+  { inversion H; subst c'. split; assumption. }
+  destruct (lget (i_h c) x) as [[[[[[sg im] p] nx] fs] ls]| |] eqn:El; cbn [bind] in H; try discriminate.
+  destruct (lget_lab _ _ _ _ _ _ _ _ El) as [Hpn _]. apply lget_view in El.
+  pose proof (lc_seg _ _ Hlc) as Hseg. cbn [lseg] in Hseg. destruct Hseg as [Hx _]. rewrite Hx in Hpn. inversion Hpn; subst p nx. clear Hpn.
+  pose proof (h_kind _ _ (proj1 Hc) x _ El) as Hsg. cbn in Hsg.
+  pose proof (h_tree _ _ (proj1 Hc)) as Ht.
+  destruct (remove_label c x) as [c1| |] eqn:Er; cbn [bind] in H; try discriminate.
+  destruct (remove_label_nstep src _ _ _ Er [] L Hc) as [Hc1 Hk1].
+  destruct (remove_label_head_k _ _ _ _ Er Hlc) as (Hlc1 & S1 & _).
+  pose proof (ginv_lstep _ _ Hg S1 Ht) as Hg1.
+  assert (Hla1 : latt (i_h c1) LL' [x]).
+  { eapply latt_weaken; [eapply latt_lstep; eassumption|]. intros y [[<-|Hy]|[]]; cbn; auto. }
+  destruct (iget (i_h c1) x) as [n| |] eqn:Eg; cbn [bind] in H; try discriminate.
+  apply iget_kd in Eg. destruct Eg as (_ & Epx & _).
+  destruct (ipar n) as [par|] eqn:Epar; [|discriminate].
+  destruct (new_inode c1 (mk_text sg)) as [c2 t] eqn:En.
+  destruct (i_replace (i_h c2) par x t) as [h| |] eqn:Erp; cbn [bind] in H; try discriminate.
+  destruct (ctx_new src _ _ _ _ _ _ En Hsg Hc1) as (Hc2 & Hk2 & _ & Kt & _ & _ & _ & Htl & _).
+  pose proof (h_tree _ _ (proj1 Hc1)) as Ht1.
+  destruct (gstep_new _ _ _ _ En (plain_text _ _ _ _) Ht1) as (G2 & _ & _ & Ht2 & _ & Pt & _ & _ & C2 & P2 & _).
+  destruct (new_inode_view _ _ _ _ En) as (_ & _ & _ & _ & F3 & _).
+  destruct (i_replace_spec _ _ _ _ _ Erp (h_tree _ _ (proj1 Hc2))) as (h1 & Hat & Hrem).
+  { assert (Hxv : (x < length (i_h c1))%nat) by (eapply pr_valid; exact Epx). lia. }
+  destruct (ctx_attach src _ _ _ _ _ _ Hc2 Hat) as [Hc3 Hk3].
+  { eapply text_edge. exact Kt. }
+  { left. eapply kd_dlk_none; [exact Kt|cbn; lia]. }
+  assert (Hc4 : ctx_ok src [] (cx_h c2 h) L).
+  { destruct Hrem as [[_ Hdet]|[_ ->]].
+    - destruct (ctx_detach src _ _ _ _ _ Hc3 Hdet) as [X _]. exact X.
+    - exact Hc3. }
+  pose proof (t_par _ Ht1 x par Epx) as Hin. destruct (in_split x _ Hin) as (X & Y & Hsp).
+  pose proof (ginv_pos _ Hg1) as H01.
+  destruct (gstep_replace _ _ _ _ _ X Y Erp Ht2) as (G3 & _ & _ & _ & _ & P3).
+  { rewrite P2. exact Epx. }
+  { exact Pt. }
+  { lia. }
+  { apply nkey_iskey. eapply nkey_kd; [exact Kt|apply plain_text]. }
+  { rewrite C2. exact Hsp. }
+  assert (G13 : gstep (i_h c1) h) by (eapply gstep_trans; eassumption).
+  eapply (IH (cx_h c2 h) (nxt_of LL' None) c' L LL' H Hc4); cbn [i_h cx_h].
+  - eapply ginv_gstep; eassumption.
+  - eapply (lchain_gstep c1 (cx_h c2 h)); [exact Hlc1|exact F3|exact G13].
+  - eapply latt_drop; [eapply latt_gstep; eassumption|]. rewrite P3, Nat.eqb_refl. reflexivity.
+  - reflexivity.
+Qed.
+
+Lemma hinv_init : hinv init_ictx [] /\ dch (i_h init_ictx) = [].
+Proof.
+  split; [|reflexivity]. constructor.
+  - constructor.
+    + reflexivity.
+    + intros x Hx. destruct x as [|x]; [reflexivity|]. unfold kcls, kd, init_ictx in Hx. cbn in Hx. destruct x; discriminate.
+    + reflexivity.
+    + exact I.
+  - constructor; cbn; auto; [constructor|intros x Ex; discriminate].
+  - intros x Hx _. unfold islab, kcls, kd, init_ictx in Hx. cbn in Hx. destruct x as [|[|x]]; discriminate.
+  - constructor.
+Qed.
+
+(* after parseBlock no node with a parent is a block node, a delimiter or a label state *)
+Lemma parse_block_kinds refs src lines c : bytes_ok src -> refs_ok refs -> lines_ok src lines ->
+  PB refs src lines = Ok c -> tree_ok (i_h c) /\ forall x p, pr (i_h c) x = Some p -> nkey (i_h c) x.
+Proof.
+  intros Hsrc Hrefs Hlines H. unfold parse_block in H.
+  destruct (new_block_reader src lines) as [r| |] eqn:En; cbn [bind] in H; try discriminate.
+  destruct (LOOP refs _ _ 0%nat false) as [s| |] eqn:El; cbn [bind] in H; try discriminate.
+  destruct (init_ok src) as [Hc0 Hp0]. destruct hinv_init as [Hi0 HS0].
+  assert (H1 : exists L1 LL1, ctx_ok src [] (t_c s) L1 /\ hinv (t_c s) LL1 /\ dch (i_h (t_c s)) = L1).
+  { destruct lines as [|l0 lines'].
+    - apply new_block_reader_nil in En. apply parse_block_loop_out in El; [|exact En].
+      rewrite El. exists [], []. auto.
+    - pose proof (ri_new _ _ _ Hlines ltac:(discriminate) En) as Hr.
+      destruct (parse_block_loop_k space_table punct_table norm url_table email_table re_email_domain re_open_tag re_close_tag
+                  punct_rune space_rune refs src (l0 :: lines') Hsp32 Hsp10 Hsrc Hrefs _ _ _ _ [] [] El) as (L1 & LL1 & [Hc1 _] & _ & Hi1 & HS1).
+      { split; [exact Hc0|exact Hr]. }
+      { exact Hi0. }
+      { exact HS0. }
+      exists L1, LL1. auto. }
+  destruct H1 as (L1 & LL1 & Hc1 & Hi1 & HS1).
+  destruct (process_delimiters (ifuel s) (t_c s) BNil) as [c2| |] eqn:Ep; cbn [bind] in H; try discriminate.
+  destruct (process_delimiters_k src _ _ _ _ _ Ep Hc1 HS1 (gi_incr _ (hi_g _ _ Hi1)) (gi_rootp _ (hi_g _ _ Hi1)))
+    as (L2 & Hc2 & _ & G2 & Fl2 & Fb2 & Hbel); [intros b0 E; discriminate|].
+  assert (L2 = []).
+  { destruct L2 as [|d L2]; [reflexivity|]. destruct (Hbel d ltac:(cbn; auto)) as (b0 & E & _). discriminate. }
+  subst L2.
+  pose proof (hinv_gstep _ _ _ Hi1 G2 Fl2 Fb2) as Hi2.
+  pose proof (link_close_block_ok src _ _ _ H Hc2) as Hc3.
+  unfold link_close_block in H.
+  destruct (nstep_fields src c2 (cx_bottoms c2 []) eq_refl eq_refl eq_refl [] [] Hc2) as [Hc2' _].
+  destruct (close_labels_k src _ _ _ _ [] LL1 H Hc2') as [Hg3 Hla3]; cbn [i_h cx_bottoms i_labels].
+  - exact (hi_g _ _ Hi2).
+  - eapply lchain_frame; [exact (hi_lc _ _ Hi2)|reflexivity|reflexivity].
+  - exact (hi_la _ _ Hi2).
+  - exact (lc_head _ _ (hi_lc _ _ Hi2)).
+  - pose proof (h_tree _ _ (proj1 Hc3)) as Ht3. split; [exact Ht3|]. intros x p Hp. unfold nkey. repeat split.
+    + intros E. apply (gi_root1 _ Hg3) in E. subst x. rewrite (gi_rootp _ Hg3) in Hp. discriminate.
+    + intros E. assert (Hd : isdel (i_h c) x = true) by (unfold isdel; rewrite E; reflexivity).
+      apply isdel_dlk in Hd. exact (dl_att _ _ _ (proj2 Hc3) p x (t_par _ Ht3 x p Hp) Hd).
+    + intros E. assert (Hl : islab (i_h c) x = true) by (unfold islab; rewrite E; reflexivity).
+      destruct (Hla3 x Hl ltac:(congruence)) as [[]|[]].
+Qed.
+
+(* no delimiter, link label state or other bookkeeping node is left in the tree
+   (inline_children_public_kinds with the two hypotheses on the space table, see the header) *)
+Theorem inline_children_public_kinds_sp : forall refs src lines ts,
+  bytes_ok src -> refs_ok refs -> lines_ok src lines ->
+  IC refs src lines = Ok ts ->
+  Forall (fun t => all_kinds inline_kind t = true) ts.
+Proof.
+  intros refs src lines ts Hsrc Hrefs Hlines H. unfold inline_children in H.
+  destruct (PB refs src lines) as [c| |] eqn:Ep; cbn [bind] in H; try discriminate.
+  destruct (itree (S (length (i_h c))) src (i_h c) 0%nat) as [t| |] eqn:Et; cbn [bind] in H; try discriminate.
+  inversion H; subst ts. clear H.
+  destruct (parse_block_kinds refs src lines c Hsrc Hrefs Hlines Ep) as [Ht Hnk].
+  destruct (itree_kinds src (i_h c) Hnk Ht _ _ _ Et) as [Hk _].
+  apply Forall_forall. intros x Hx. rewrite forallb_forall in Hk. exact (Hk x Hx).
+Qed.
+
 (* UNPROVED (original statement, false for an arbitrary space table; see the header):
 Theorem inline_children_ok : forall refs src lines ts,
   bytes_ok src -> refs_ok refs -> lines_ok src lines ->
   IC refs src lines = Ok ts ->
   Forall (fun t => wf_node src false false t = true) ts.
+*)
+(* NOT PROVED IN THIS FORM (original statement, for an arbitrary space table; proved above with the two
+   hypotheses on the space table as inline_children_public_kinds_sp: the proof goes through the
+   invariant of the first theorem, which needs them; whether the statement holds without them is open):
+Theorem inline_children_public_kinds : forall refs src lines ts,
+  bytes_ok src -> refs_ok refs -> lines_ok src lines ->
+  IC refs src lines = Ok ts ->
+  Forall (fun t => all_kinds inline_kind t = true) ts.
 *)
 
 End S.
@@ -241,4 +423,12 @@ Theorem InlineChildren_ok : forall refs src lines ts,
   Forall (fun t => wf_node src false false t = true) ts.
 Proof.
   unfold GM.model.ParseI.InlineChildren. apply inline_children_ok_sp; vm_compute; reflexivity.
+Qed.
+
+Theorem InlineChildren_public_kinds : forall refs src lines ts,
+  bytes_ok src -> refs_ok refs -> lines_ok src lines ->
+  GM.model.ParseI.InlineChildren refs src lines = Ok ts ->
+  Forall (fun t => all_kinds inline_kind t = true) ts.
+Proof.
+  unfold GM.model.ParseI.InlineChildren. apply inline_children_public_kinds_sp; vm_compute; reflexivity.
 Qed.
